@@ -1022,7 +1022,7 @@ class DiffARBFV2(DiffAdditiveMixin, Kernel):
         return True
 
     def get_k0_for_mapping(self, X, Y, lscale):
-        diff = X[:, None] - Y[None, :] / lscale
+        diff = (X[:, None] - Y[None, :]) / lscale
         return np.exp(-0.5 * diff * diff)
 
     def _get_k0_dk0_train(self, X, Y, eval_gradient):
